@@ -209,7 +209,14 @@ func c08Mask(names []string) uint8 {
 	return m
 }
 
+// c08ExtraBit stands for the per-case fresh channel ("N<case>"): its channel cache does not exist when the
+// case starts and is created in the middle of the case, the way a first changes request on a channel does.
+const c08ExtraBit = 1 << 3
+
 func c08ChanBit(name string) uint8 {
+	if len(name) > 1 && name[0] == 'N' {
+		return c08ExtraBit
+	}
 	switch name {
 	case "A":
 		return 1
@@ -228,6 +235,9 @@ func c08MaskNames(m uint8) []string {
 			out = append(out, n)
 		}
 	}
+	if m&c08ExtraBit != 0 {
+		out = append(out, "N<case>")
+	}
 	if m&c08OtherChan != 0 {
 		out = append(out, "?")
 	}
@@ -243,11 +253,12 @@ type c08Call struct {
 	Returned     uint8 // channels returned by the real AddToCache (without the star channel)
 	Star         bool  // real AddToCache reported the star channel
 	LateLogged   bool  // for late entries: every active single-channel cache has it as its newest late entry
+	BelowValidFrom bool // for late entries: below the validFrom of at least one active cache of its channels
 }
 
 func (c c08Call) describe(base uint64) map[string]any {
 	return map[string]any{"seq": int64(c.Seq) - int64(base), "doc": c.DocID, "late": c.Late, "still_skipped_when_forwarded": c.StillSkipped,
-		"channels": c08MaskNames(c.Chans), "cache_reported": c08MaskNames(c.Returned), "star": c.Star, "late_logged": c.LateLogged}
+		"channels": c08MaskNames(c.Chans), "cache_reported": c08MaskNames(c.Returned), "star": c.Star, "late_logged": c.LateLogged, "below_valid_from_of_an_active_cache": c.BelowValidFrom}
 }
 
 type c08Recorder struct {
@@ -286,9 +297,13 @@ func (r *c08Recorder) snapshot() []c08Call {
 
 func (r *c08Recorder) AddToCache(ctx context.Context, change *LogEntry) []channels.ID {
 	call := c08Call{Seq: change.Sequence, DocID: change.DocID, Late: change.Skipped}
+	var lateNames []string
 	for name, removal := range change.Channels {
 		if removal == nil || removal.Seq == change.Sequence {
 			call.Chans |= c08ChanBit(name)
+			if call.Late {
+				lateNames = append(lateNames, name)
+			}
 		}
 	}
 	collectionID := change.CollectionID
@@ -307,15 +322,11 @@ func (r *c08Recorder) AddToCache(ctx context.Context, change *LogEntry) []channe
 		}
 	}
 	if call.Late {
+		// every ACTIVE single-channel cache of the entry's channels must have it as newest late-log entry, also
+		// when the entry is below that cache's validFrom and therefore not cached (the late log is the only way
+		// a running continuous feed learns about it)
 		call.LateLogged = true
-		for i := -1; i < len(c08DocChans); i++ {
-			name := channels.UserStarChannel
-			if i >= 0 {
-				if call.Chans&(1<<i) == 0 {
-					continue
-				}
-				name = c08DocChans[i]
-			}
+		for _, name := range append(lateNames, channels.UserStarChannel) {
 			if v, ok := r.impl.getActiveChannelCache(ctx, channels.NewID(name, collectionID)); ok {
 				v.lateLogLock.RLock()
 				n := len(v.lateLogs)
@@ -323,6 +334,11 @@ func (r *c08Recorder) AddToCache(ctx context.Context, change *LogEntry) []channe
 					call.LateLogged = false
 				}
 				v.lateLogLock.RUnlock()
+				v.lock.RLock()
+				if change.Sequence < v.validFrom {
+					call.BelowValidFrom = true
+				}
+				v.lock.RUnlock()
 			}
 		}
 	}
@@ -359,6 +375,7 @@ type c08Stats struct {
 	skippedStates, lateForwards, pendingStates, rangeLate, rangePend   int
 	casesWithSkip, casesWithLate, casesNontrivial, cacheReads, maxPend int
 	itemsChecked, feedDocs, recentRemovals, receivedLeak, selfSkips    int
+	lateBelowValidFrom                                                 int
 }
 
 // c08Item is one expected forward to the channel caches: a document change at one sequence.
@@ -384,6 +401,11 @@ type c08Rig struct {
 	reset func() // for a rig on a real database: throw the database away and attach to a new one
 
 	chanCaches []*singleChannelCacheImpl // A, B, C, *
+
+	extraChan    string                  // per-case fresh channel ("" = none)
+	extraCache   *singleChannelCacheImpl // its cache once something has asked for it
+	extraCalls   int                     // forwards recorded when the cache was first seen
+	openExtraAt  int                     // runCase: create the cache before this delivery index (-1 = never)
 
 	// current case
 	caseID   int
@@ -422,6 +444,9 @@ func c08CacheOptions() CacheOptions {
 	opts.CacheSkippedSeqMaxWait = 48 * time.Hour
 	opts.ChannelCacheAge = 48 * time.Hour
 	opts.CachePendingSeqMaxNum = 10000
+	// continuous feeds are woken by the broadcast ticker only: keep it short (internal tuning knob of CacheOptions)
+	opts.BroadcastChangesInterval = time.Millisecond
+	opts.SkippedSequenceBroadcastInterval = time.Millisecond
 	return opts
 }
 
@@ -608,7 +633,33 @@ func (g *c08Rig) beginCase(events []c08Event, w int, overdue []bool, maxNum int)
 	g.tsNow = channels.NewFeedTimestamp(&g.timeNow)
 	g.tsOld = channels.NewFeedTimestamp(&g.timeOld)
 	g.sawSkip, g.sawLate, g.sawPend = false, false, false
+	g.extraChan, g.extraCache, g.extraCalls, g.openExtraAt = "", nil, 0, -1
 	return true
+}
+
+// nextExtraChan returns the name of the fresh channel of the next case of this rig.
+func (g *c08Rig) nextExtraChan() string { return "N" + strconv.Itoa(g.caseID+1) }
+
+// openExtra makes the fresh channel's cache exist, as the first changes request on the channel would.
+func (g *c08Rig) openExtra() {
+	if g.extraChan == "" {
+		return
+	}
+	if _, err := g.impl.getSingleChannelCache(g.ctx, channels.NewID(g.extraChan, g.colID)); err != nil {
+		g.t.Fatalf("c08: getSingleChannelCache(%s): %v", g.extraChan, err)
+	}
+	g.noteExtra()
+}
+
+// noteExtra notices that the fresh channel's cache has been created (by openExtra or by a changes feed).
+func (g *c08Rig) noteExtra() {
+	if g.extraChan == "" || g.extraCache != nil {
+		return
+	}
+	if v, ok := g.impl.getActiveChannelCache(g.ctx, channels.NewID(g.extraChan, g.colID)); ok {
+		g.extraCache = v
+		g.extraCalls = len(g.rec.snapshot())
+	}
 }
 
 func (g *c08Rig) abs(rel int) uint64 { return g.base + uint64(rel) }
@@ -1051,6 +1102,44 @@ func (g *c08Rig) check(final bool, lastEv int) bool {
 			fail("I3-cache-content", "channel-cache-content", fmt.Sprintf("channel cache %q holds %v above the window base, expected exactly %v (in sequence order)", c08ChanNames[ci], gs, es))
 		}
 	}
+	// the fresh channel's cache: created in the middle of the case with validFrom = high cached + 1 (possibly
+	// lowered by an empty backfill query); holds exactly the forwards it was active for at or above validFrom
+	if g.extraCache != nil {
+		g.extraCache.lock.RLock()
+		validFrom := g.extraCache.validFrom
+		g.extraCache.lock.RUnlock()
+		var gs []string
+		bad := ""
+		var prev uint64
+		present := map[string]bool{}
+		g.cachedAboveBase(g.extraCache, func(e *LogEntry) {
+			gs = append(gs, fmt.Sprintf("%d:%s", int64(e.Sequence)-int64(g.base), e.DocID))
+			if e.Sequence <= prev {
+				bad = "not ascending"
+			}
+			prev = e.Sequence
+			found := false
+			for ii := range g.items {
+				it := &g.items[ii]
+				if g.abs(it.Seq) == e.Sequence && it.DocID == e.DocID && it.Chans&c08ExtraBit != 0 && g.arrived[it.Seq] && it.Seq < relN {
+					found = true
+				}
+			}
+			if !found {
+				bad = "holds an entry that is no forwarded document change of the channel"
+			}
+			present[e.DocID] = true
+		})
+		for k := g.extraCalls; k < len(calls) && bad == ""; k++ {
+			if calls[k].Chans&c08ExtraBit != 0 && calls[k].Seq >= validFrom && !present[calls[k].DocID] {
+				bad = fmt.Sprintf("misses %s at sequence %d (relative) forwarded while the cache was active (validFrom %d relative)", calls[k].DocID, int64(calls[k].Seq)-int64(g.base), int64(validFrom)-int64(g.base))
+			}
+		}
+		g.st.cacheReads++
+		if bad != "" {
+			fail("I3-cache-content", "fresh-channel-cache-content", fmt.Sprintf("cache of the channel first requested in the middle of the case %s: holds %v", bad, gs))
+		}
+	}
 	if final {
 		if relN != w+1 || len(st.Pending) != 0 || nSkipped != 0 {
 			fail("END-state", "end-state", fmt.Sprintf("after every event was delivered: next=%d (expected %d), pending=%d, skipped=%d", relN, w+1, len(st.Pending), nSkipped))
@@ -1121,6 +1210,9 @@ func (g *c08Rig) endCase() bool {
 		if c.Late {
 			g.st.lateForwards++
 			g.sawLate = true
+			if c.BelowValidFrom {
+				g.st.lateBelowValidFrom++
+			}
 		}
 	}
 	if g.sawSkip {
@@ -1137,10 +1229,19 @@ func (g *c08Rig) endCase() bool {
 
 // runCase executes one sequential case: order holds event indexes (an event may appear more than once).
 func (g *c08Rig) runCase(events []c08Event, w int, order []int, overdue []bool, maxNum int) bool {
+	return g.runCaseExtra(events, w, order, overdue, maxNum, "", -1)
+}
+
+// runCaseExtra: extraChan is a channel no cache exists for yet; its cache is created before delivery openExtraAt.
+func (g *c08Rig) runCaseExtra(events []c08Event, w int, order []int, overdue []bool, maxNum int, extraChan string, openExtraAt int) bool {
 	if !g.beginCase(events, w, overdue, maxNum) {
 		return false
 	}
-	for _, ei := range order {
+	g.extraChan, g.openExtraAt = extraChan, openExtraAt
+	for k, ei := range order {
+		if k == g.openExtraAt {
+			g.openExtra()
+		}
 		if !g.deliver(ei) {
 			g.st.cases++
 			g.rebuild()
@@ -1166,6 +1267,7 @@ func (g *c08Rig) flush() {
 	r.Count("states_with_pending", s.pendingStates)
 	r.Count("states_with_pending_range", s.rangePend)
 	r.Count("late_arrivals_forwarded", s.lateForwards)
+	r.Count("late_arrivals_below_valid_from_of_active_cache", s.lateBelowValidFrom)
 	r.Count("unused_ranges_arrived_late", s.rangeLate)
 	r.Count("cases_with_skip", s.casesWithSkip)
 	r.Count("cases_with_late_arrival", s.casesWithLate)
@@ -1464,7 +1566,7 @@ func TestVerif_C08_Perms(t *testing.T) {
 
 // c08RandomEvents draws a partition of a window of w sequences.  full=true also draws channel removals and
 // channel removals at de-duplicated recent sequences (not used by the response-level parts).
-func c08RandomEvents(r *vlib.Rand, w int, full bool) []c08Event {
+func c08RandomEvents(r *vlib.Rand, w int, full bool, extra string) []c08Event {
 	var evs []c08Event
 	var slots []int // sequences waiting for a feed document to carry them
 	chanSet := func() []string {
@@ -1476,6 +1578,9 @@ func c08RandomEvents(r *vlib.Rand, w int, full bool) []c08Event {
 		}
 		if len(out) == 0 && r.Chance(3, 4) {
 			out = append(out, vlib.Pick(r, []string{"A", "B", "C"}))
+		}
+		if extra != "" && r.Chance(1, 2) {
+			out = append(out, extra)
 		}
 		return out
 	}
@@ -1614,12 +1719,16 @@ func TestVerif_C08_Random(t *testing.T) {
 					continue
 				}
 				r := run.CaseRand(ci)
-				events := c08RandomEvents(r, w, true)
+				extra := ""
+				if r.Chance(1, 2) { // half of the cases: a channel whose cache is created in the middle of the case
+					extra = g.nextExtraChan()
+				}
+				events := c08RandomEvents(r, w, true, extra)
 				c08ValidateEvents(t, events, w)
 				order := c08RandomOrder(r, len(events), 3)
 				overdue := c08RandomOverdue(r, len(events))
 				maxNum := vlib.Pick(r, []int{0, 1, 2, 3, w})
-				ok := g.runCase(events, w, order, overdue, maxNum)
+				ok := g.runCaseExtra(events, w, order, overdue, maxNum, extra, r.Intn(len(order)))
 				if ci < 2 {
 					run.Sample(map[string]any{"case": ci, "CachePendingSeqMaxNum": maxNum, "deliveries": g.deliveryLabels()})
 				}
